@@ -30,7 +30,10 @@ MANIFEST = {
             "when the two diffs touch different top-level instances) and C13_merge_apply_partial_mixed (the composition law for every C "
             "in which each top-level identity touched by both diffs is back at its state in A: the meeting roots cancel at any depth, "
             "the others are added / kept - partial rollback combined with independent changes; both earlier theorems are instances; "
-            "missing: roots that meet without cancelling). Tie: the extracted models of "
+            "missing: roots that meet without cancelling), C13_merge_apply_partial_cells (without LYD_DIFF_MERGE_DEFAULTS the meeting "
+            "roots may also be leaves in the cells replace + replace, create + replace, delete + create: the met root is replaced in "
+            "place by the merged one; missing: the other leaf cells, inner / list cells that do not cancel, cells below the top level). "
+            "Tie: the extracted models of "
             "lyd_diff_reverse_all and lyd_diff_merge_all (whole merge table, redundancy removal, both merge options) must print the same "
             "reversed / merged diff trees and the same patched trees as libyang on generated triples built to hit every cell (T2 "
             "dtree-C13); the laws are also judged on the implementation by dump equality (difftree-laws-C13). Node kinds outside the model (oracle difftree-kinds-C13, driver t_c14x, dumps with anydata value type and content, metadata, opaque nodes): apply(reverse(diff(A,B)),B) = A and apply(merge(diff(A,B),diff(B,C)),A) = C on trees with anydata / anyxml values of every representation, metadata and opaque nodes; the known deviations (a reversed anydata value comes back as a string, metadata / opaque nodes are not carried) are computed exactly per case. Merge options (oracle difftree-mergeopts-C13): apply(merge(diff(A,B),diff(B,C)),A) = C by dump equality for both values of LYD_DIFF_MERGE_DEFAULTS on diffs made with LYD_DIFF_DEFAULTS, and for diffs made without it on triples without default nodes; leaves with own and with typedef defaults (no LYS_SET_DFLT) in the correspondence, law and kinds generators. User-ordered lists (oracle difftree-uord-movechange-C13): reversal of diffs in which one instance of a user-ordered keyed list (top level, in containers, in list entries) is moved or created AND changed inside (nested leaves, containers, leaf-lists, nested list entries, default leaves), both diff option settings, with controls; failures are attributed to uord-reverse only when the diff deletes a user-ordered instance or moves two instances of one list (also in diff-uord-reverse).",
